@@ -186,3 +186,25 @@ def replay(obj):
     for d in s["disagreements"]:
         print("REPRODUCED:", dis_key(d), describe(d))
     return 1 if s["disagreements"] else 0
+
+
+REGISTRY = {"C03": check_C03}
+REPLAY = {"sim": replay}
+ENGINES = [{"name": "sim", "path": "tools/eng_sim.py, tools/c_sim.py, spec/Sim.tla, spec/CanonLR.tla, spec/Grammar.tla, harness/crates/lpdrv",
+            "serves_properties": ["C01", "C03"],
+            "kind_free_text": "TLC explores the product of the textbook canonical LR(1) construction (TLA+) with the automaton "
+                              "LALRPOP built (hook export); complete per grammar"}]
+MANIFEST = [{
+    "property_id": "C03", "quick_cmd": "./check C03 --tier quick", "thorough_cmd": "./check C03 --tier thorough",
+    "evidence_file": "evidence/C03.json", "replay_cmd_template": "./check C03 --replay {path}", "engine": "sim",
+    "level_claimed": {"category": "model_checking", "design_ref": "DESIGN.md 4.2, 4.3, 5/C03",
+                      "text": "For every grammar of an exhaustively enumerated small scope and seeded random grammars, under each "
+                              "construction algorithm, TLC explores the whole canonical LR(1) item-set graph (textbook construction "
+                              "written in TLA+) and LALRPOP's verdict is compared with reachability of a conflicting item set (LALR: "
+                              "merged-core criterion); accepted grammars additionally satisfy the simulation invariants in every "
+                              "product state."},
+    "level_note": "Trusted: TLC's evaluation of CanonLR.tla; the cfg-guarded export hook (records the value handed to the code "
+                  "generators). Bounded in grammar size, unbounded in input length per grammar.",
+    "technique": "TLA+ spec of canonical LR(1) + TLC exhaustive exploration per grammar; conformance by comparing with the "
+                 "exported automaton/verdict of the real generator",
+}]
